@@ -246,6 +246,12 @@ class ShapeHost(Host):
             return str(GroupShape(self.grp, self.slide.shapes).shapes.add_textbox(Emu(0), Emu(0), Emu(10), Emu(10)).shape_id)
         if op == "allocGap":
             return str(self.slide.shapes.add_group_shape().shape_id)
+        if op == "allocFree":
+            self.fb = self.slide.shapes.build_freeform(Emu(0), Emu(0))
+            self.fb.add_line_segments([(Emu(100), Emu(0)), (Emu(100), Emu(100))])
+            return str(self.fb.convert_to_shape().shape_id)
+        if op == "allocAgain":
+            return str(self.fb.convert_to_shape(Emu(500), Emu(500)).shape_id)
         return str(self.slide.shapes.add_textbox(Emu(0), Emu(0), Emu(10), Emu(10)).shape_id)
 
     def turbo(self):
@@ -317,7 +323,7 @@ def run_history(hid: str, hist: list) -> dict:
     for a in hist[1:]:
         new, raised = NONE, ""
         try:
-            if a["op"] in ("alloc", "allocGap", "allocIn"):
+            if a["op"] in ("alloc", "allocGap", "allocIn", "allocFree", "allocAgain"):
                 s = h.alloc(a["op"])
                 new = h.parse(str(s), {})
                 if new["c"] == "canon":
